@@ -71,6 +71,15 @@ PROPS = {
   "streams": [st("modes", 3000, 150000), eng(2000, 60000)],
   "trusted_base": ENGINE_TB, "assumptions": ENGINE_ASSUME,
  },
+ "C16": {
+  "module": "Zog.Props.C16",
+  "theorems": [P + "C16." + t for t in ["clone_copies", "heap_refines_pure", "pure_step_frame", "heap_step_frame", "pick_fields", "omit_fields", "union_fields", "merge_tests"]],
+  "streams": [st("helpers", 1500, 100000)],
+  "trusted_base": ["modelled, not verified: lean/Zog/Helpers.lean mirrors struct_helpers.go (cloneShallow/Pick/Omit/Extend/Merge) and StructSchema.Test/PostTransform with Go slice semantics (in-place append while len < cap, arbitrary growth policy)",
+                   "regenerated (go/ast): Gen.cloneCopies — cloneShallow gives the derived schema its own tests/postTransforms arrays",
+                   "the model carries one appended list per object; Tests and PostTransforms share the code shape and are both exercised by the stream"],
+  "assumptions": ["Pick is given keys that exist in its operand (a missing key stores a nil schema in the real code and panics at execution: outside the selection semantics)"],
+ },
  "C17": {
   "module": "Zog.Props.C17",
   "theorems": [P + "C17." + t for t in ["not_is_local", "negated_test_semantics", "plain_test_unchanged", "wellformed_isNot_clear", "required_last_wins", "optional_last_wins", "default_last_wins", "catch_last_wins", "tests_only_appended", "modifier_leaves_tests", "coercer_is_the_given_one", "not_codes_flip", "shared_schema_is_read_only"]],
